@@ -153,7 +153,8 @@ static int icmd_pos;		/* icmd[] position */
 void term_push(char *s, int n)
 {
 	int rest = ibuf_pos < ibuf_cnt ? ibuf_cnt - ibuf_pos : 0;	/* pushed but not yet read */
-	n = MIN(n, sizeof(ibuf) - rest);
+	if (n > sizeof(ibuf) - rest)	/* never part of a command or of a character */
+		return;
 	memmove(ibuf + n, ibuf + ibuf_pos, rest);
 	memcpy(ibuf, s, n);
 	ibuf_pos = 0;
